@@ -488,7 +488,9 @@ def opComment (w : World) (x : Nat) (cm : Option Bytes) : World × Ans :=
 /-- `insert_character_content_item` -/
 def opInsText (w : World) (x pos : Nat) (s : Bytes) : World × Ans :=
   match locate w x with
-  | none => (w, .err)
+  -- the Rust function does not look at the element's place: through a stale handle it edits the detached element
+  -- (no effect on the live model); the content of detached elements is not modelled
+  | none => (w, if w.dead.any (·.id == x) then .unsupported else .err)
   | some (k, c) =>
     let m := w.models[k]!
     let (h, kids) := lastOf c
@@ -506,7 +508,7 @@ def isTextAt : Items → Nat → Bool
 /-- `remove_character_content_item` -/
 def opRmText (w : World) (x pos : Nat) : World × Ans :=
   match locate w x with
-  | none => (w, .err)
+  | none => (w, if w.dead.any (·.id == x) then .unsupported else .err)
   | some (k, c) =>
     let m := w.models[k]!
     let (h, kids) := lastOf c
